@@ -421,6 +421,15 @@ H("c05_ooo_skip_any_replay", "c05_ooo.rs", ["C05", "C04"], "quick", unwind=6, me
   bounds="<= 2 parked keys; requests beyond the current generation after parking are outside (window interior: unwinding bound)",
   assumes=["gap <= 2", "q <= generation of the message that overtook"])
 
+for kt in ["application", "handshake"]:
+    H("c05_dispatch_%s" % kt, "c05_ooo.rs", ["C05", "C13"], "quick", unwind=5, mem="M", stubs=ZSTUBS + _CUT + _BT + ["model: fresh-output CipherSuiteProvider (no log)"],
+      timeout_s=1200,
+      what="SecretRatchets::message_key_generation (receive-side dispatch between a leaf's two ratchets), %s request: served by the ratchet of the "
+           "requested key type at exactly the requested generation (current or one ahead), whatever the OTHER ratchet's generation; the other "
+           "ratchet's secret, generation and history are untouched" % kt,
+      symbolic="both ratchets' generations: any u32 <= 2^32-2001 (independent), both secrets, gap 0..1", bounds="gap <= 1",
+      assumes=["generations <= 2^32-2001", "gap <= 1"])
+
 # --------------------------------------------------------------------------------------- C16 / C11 / C03a
 OUTSIDE["C16"] = ("the observer tracking roster / tree / context over histories, proposals it issues, snapshot/restore, signature and "
                   "proposal-rule checks (whole-program; Group-sized state)")
